@@ -47,8 +47,12 @@ def r_fold(ctx, chk):
         outside_calls.append(n)
         if n.endswith('<impl str>::chars'):
             src_ok = True
-    allowed = ('::chars', '::into_iter', '::deref', '::as_str')
-    extra = [n for n in outside_calls if not n.endswith(allowed)]
+    # outside the loop only effect-free library calls are allowed: nothing of this crate (state
+    # machine, listener, helpers with `self`), no coroutine resumption, no lock
+    def effectful(n):
+        kind_, _c = ('local', n) if n in prog.bodies else ('lib', n)
+        return kind_ == 'local' or any(x in n for x in ('generator::', 'Gn::', '::send', '::resume', 'Mutex', '::lock', 'ParserListener'))
+    extra = [n for n in outside_calls if effectful(n)]
     chk.instance('R-FOLD', 'Parser::feed', 'nothing with an effect outside the loop', src_ok and not extra,
                  detail='calls outside the loop: %s' % outside_calls, span=body.span,
                  what='calls outside the character loop: %s (only the iterator set-up over data.chars() is allowed)' % extra)
@@ -75,11 +79,13 @@ def r_fold(ctx, chk):
     # empty chunk: zero iterations -> nothing happens (follows from the three clauses above)
 
 
-def bytes_as_code_points(eng, st, a):
+def bytes_as_code_points(eng, st, a, pr=None):
     """is the string `a` exactly `data.iter().map(f).collect()` with f(b) = the char whose code point
     is b, decided on the abstract value: the iterator source is the `data` slice, the adaptors are
     copies and one map, and the map closure applied to an arbitrary byte b returns char(b)"""
     from .values import CharV, ClosureV, IterV
+    if isinstance(a, StrV) and isinstance(a.prov, tuple) and a.prov and a.prov[0] == 'loopvar':
+        return pushed_code_points(eng, st, a, pr)
     if not (isinstance(a, StrV) and isinstance(a.prov, tuple) and a.prov and a.prov[0] == 'collect' and len(a.prov) > 3 and isinstance(a.prov[3], IterV)):
         return False, '8-bit text is not collected from an iterator over the chunk (%r)' % (a,)
     it = a.prov[3]
@@ -127,7 +133,51 @@ def bytes_as_code_points(eng, st, a):
     return True, 'every byte b is mapped to char(b)'
 
 
-def r_stream(ctx, chk, prop):
+def pushed_code_points(eng, st, a, pr):
+    """the same map written as a loop: `let mut s = String::new(); for b in data { s.push(char(b)) }`.
+    The string is the variable a loop accumulates; it was empty on entry; the loop iterates the `data`
+    chunk itself (copies only), can only be left when the iterator is exhausted, and every iteration
+    pushes exactly one character whose code point is the element"""
+    from .values import CharV
+    from . import rules_grid as g
+    _k, func, head, local, entry_known = a.prov
+    if entry_known != '':
+        return False, 'the accumulated text is not empty before the loop (%r)' % (entry_known,)
+    body = eng.prog.bodies.get(func)
+    if body is None or not g.loop_exits_only_at_head(body, head):
+        return False, 'the loop that builds the 8-bit text can be left early'
+    desc = g.loop_desc_in(st.event_list(), func, head)
+    if desc is None or desc[0] != 'coll' or any(o not in ('cloned',) for o in desc[4]):
+        return False, 'the loop that builds the 8-bit text does not iterate a collection directly (%r)' % (desc,)
+    try:
+        src = eng.read(st, desc[1])
+    except Exception:
+        src = None
+    if not (isinstance(src, CollV) and isinstance(src.length, NumV) and 'data' in symname(src.length.sym or 0)):
+        return False, 'the loop that builds the 8-bit text does not iterate the `data` chunk itself (%r)' % (src,)
+    segs = [sg for sg in (pr or {}).get('segments', []) if sg['func'] == func and sg['head'] == head]
+    if not segs:
+        return False, 'no iteration of the loop that builds the 8-bit text was analysed'
+    target = ('_%d' % local,)
+    for sg in segs:
+        s2 = sg['st']
+        pre, lev = g.seg_events(dict(sg, kind='backedge'))
+        pushes = [ev for ev in lev if ev[0] in ('str.push', 'str.push_str') and ev[1] == target]
+        others = [ev for ev in lev if ev[0] == 'w' and False]
+        if len(pushes) != 1 or pushes[0][0] != 'str.push':
+            return False, 'an iteration performs %d pushes on the text' % len(pushes)
+        ch = pushes[0][2]
+        d2 = g.loop_desc_in(s2.event_list(), func, head)
+        el = s2.vn.get(('iterelem', d2[3])) if d2 is not None and d2[0] == 'coll' else None
+        if not (isinstance(ch, CharV) and isinstance(el, NumV)):
+            return False, 'pushed value %r / loop element %r' % (ch, el)
+        n = eng.char_num(s2, ch)
+        if eng.prove_cmp(s2, 'eq', n, NumV(el.sym, el.k, 'u32')) is not True:
+            return False, 'the pushed character %r is not the code point equal to the byte %r' % (ch, el)
+    return True, 'loop over data pushing char(b) for every byte b'
+
+
+def r_stream(ctx, chk, prop, only_8bit=False):
     prog = ctx.prog
     pr = ctx.parser_run()
     eng = pr['engine']
@@ -136,7 +186,8 @@ def r_stream(ctx, chk, prop):
     if finals is None or body is None:
         chk.instance('R-STREAM', 'ByteParser::feed', 'analysed', False, detail=str(pr['errors'].get(BFEED)), what='ByteParser::feed could not be analysed', undischarged=True)
         return
-    chk.floor('ByteParser::feed exit paths', len(finals), 2)
+    if not only_8bit:
+        chk.floor('ByteParser::feed exit paths', len(finals), 2)
     utf8_paths = 0
     raw_paths = 0
     probs_utf8 = []
@@ -171,6 +222,24 @@ def r_stream(ctx, chk, prop):
                 srcv = eng.read(st, src.path) if isinstance(src, RefV) else None
                 if not (isinstance(srcv, CollV) and isinstance(srcv.length, NumV) and 'data' in symname(srcv.length.sym or 0)):
                     probs_utf8.append('decoder input is not the `data` chunk itself (%r)' % (srcv,))
+                # the output buffer has room for the whole chunk even if every byte is replaced by U+FFFD
+                # (`decode_to_string` stops with OutputFull otherwise and the rest of the chunk is lost):
+                # its capacity is the decoder's own with-replacement bound for data.len() bytes
+                dstv = d[5] if len(d) > 5 else None
+                cap = dstv.prov[1] if isinstance(dstv, StrV) and isinstance(dstv.prov, tuple) and dstv.prov and dstv.prov[0] == 'with_capacity' else None
+                capdef = st.vn.get(('def', cap.sym)) if isinstance(cap, NumV) and cap.sym is not None else None
+                if 'without_replacement' not in name:
+                    if isinstance(capdef, tuple) and capdef[0] == 'max_utf8_len':
+                        if capdef[1] != 'with_replacement':
+                            probs_utf8.append('the output buffer is sized with max_utf8_buffer_length_without_replacement although malformed input is replaced by U+FFFD (3 bytes each): '
+                                              'the decoder stops with OutputFull and the rest of the chunk is dropped')
+                        elif not (isinstance(capdef[2], NumV) and isinstance(srcv, CollV) and isinstance(srcv.length, NumV) and eng.prove_cmp(st, 'eq', capdef[2], srcv.length) is True):
+                            probs_utf8.append('the output buffer is sized for %r bytes, not for data.len()' % (capdef[2],))
+                    elif isinstance(cap, NumV) and isinstance(srcv, CollV) and isinstance(srcv.length, NumV) and eng.prove_cmp(st, 'eq', cap, srcv.length) is True \
+                            and any(k_[0] == 'max_utf8_opt' and st.vn.get(('tagof', k_[1])) == 0 for k_ in st.vn if isinstance(k_, tuple) and k_):
+                        pass      # the bound overflowed (None): the fallback of the code under analysis, unchanged behaviour
+                    else:
+                        probs_utf8.append('the capacity of the output buffer (%r) is not the decoder\'s with-replacement bound for the chunk' % (cap,))
                 # the decoder is a field of self (state carried between feeds)
                 dref = args[0] if args else None
                 if not (isinstance(dref, RefV) and any(e[0] == 'f' for e in dref.path[1])):
@@ -191,15 +260,18 @@ def r_stream(ctx, chk, prop):
                 probs_raw.append('%d calls of Parser::feed on the 8-bit path' % len(feeds))
             else:
                 a = feeds[0][2][1] if len(feeds[0][2]) > 1 else None
-                okp, whyp = bytes_as_code_points(eng, st, a)
+                okp, whyp = bytes_as_code_points(eng, st, a, pr)
                 if not okp:
                     probs_raw.append(whyp)
-    chk.instance('R-STREAM', 'ByteParser::feed', 'UTF-8 branch obeys the streaming-decoder protocol', utf8_paths > 0 and not probs_utf8,
+    if not only_8bit:
+      chk.instance('R-STREAM', 'ByteParser::feed', 'UTF-8 branch obeys the streaming-decoder protocol', utf8_paths > 0 and not probs_utf8,
                  detail='; '.join(sorted(set(probs_utf8))) or '%d UTF-8 paths: one decode_to_string(data, last=false) on a decoder field, output fed once' % utf8_paths,
                  span=body.span, what='; '.join(sorted(set(probs_utf8))) or 'no UTF-8 path found')
     chk.instance('R-STREAM', 'ByteParser::feed', '8-bit branch is an element-wise byte -> code point map', raw_paths > 0 and not probs_raw,
                  detail='; '.join(sorted(set(probs_raw))) or '%d 8-bit paths; the text fed is data.iter().map(f).collect() and f(b) = char(b) for an arbitrary byte b' % raw_paths, span=body.span,
                  what='; '.join(sorted(set(probs_raw))))
+    if only_8bit:
+        return
     # decoder constructed only in new / select_other_charset
     ctor_sites = []
     for f, b in prog.bodies.items():
@@ -266,6 +338,10 @@ def select_table(ctx, chk):
                     probs.append('use_utf8 becomes %r (documented %r)' % (val if changed else 'unchanged', want))
                 if want is False and not resets and not any(e[0] == 'coll.clear' for e in s2.event_list()):
                     probs.append('carried bytes are not discarded when leaving UTF-8')
+                if want is True and resets:
+                    was = s2.vn.get(('fact', ('init-utf8', 0)))
+                    if was is not False:
+                        probs.append('the streaming decoder is re-created although the parser may already be in UTF-8 mode: the bytes of an incomplete sequence carried from the previous feed are dropped')
         n += 1
         chk.instance('R-DISPATCH', 'select_other_charset', 'code %r' % code, bool(res) and not probs, detail='; '.join(probs) or 'as documented',
                      span=body.span, what='select_other_charset(%r): %s' % (code, '; '.join(probs)))
